@@ -286,12 +286,25 @@ def r1_3(ctx, R, parts=("who", "clear", "behind")):
         callers = [c.path for c, _ in R.callers_of(b)]
         if ws and all(v == "0" for _, v in ws) and callers and all(c in drain_paths for c in callers):
             helpers.append(b)
-    allowed = {pop.path} | {b.path for b in R.enq_fns} | {h.path for h in helpers}
+    # ... or DRAIN itself (such a helper read through): its clears must sit behind a dequeue that handed out a slot
+    drain_clearers = [b for b in lockers if b.path in drain_paths and b.path != pop.path and b not in R.enq_fns and
+                      _flag_writes(ctx, R, b) and all(v == "0" for _, v in _flag_writes(ctx, R, b))]
+    allowed = {pop.path} | {b.path for b in R.enq_fns} | {h.path for h in helpers} | {b.path for b in drain_clearers}
     for b in lockers:
         ctx.ob("R1.3", b, "who-may-lock-flag", b.path in allowed, d_loc(b), "allowed roles: POP, MARK, wake path, clear helper of DRAIN")
         for bb, v in _flag_writes(ctx, R, b):
             if v != "1":
                 ok = v == "0" and (b.path == pop.path or b in helpers)
+                if v == "0" and b in drain_clearers:
+                    from lib_flow import arrival_knowledge
+                    bfl = ctx.flow(b)
+                    ok = False
+                    for pbb, pt, pfn in R.pop_sites(b):
+                        dest = place_str(pt["dest"])
+                        rv_ = _payload_variants(ctx, pt["dest"]["ty"])
+                        ak = arrival_knowledge(b, bfl, bb)
+                        if ak and all(k_.get(dest) in rv_ for k_ in ak):
+                            ok = True
                 ctx.ob("R1.3", b, "writes-%s" % ("false" if v == "0" else "nonconst"), ok, b.loc(bb), "only POP / DRAIN's clear helper may clear the flag")
     ctx.floor("R1.3", "flag-lockers", len(lockers), 2)
     # does POP itself clear on its successful-dequeue path?
@@ -369,6 +382,12 @@ def r1_3(ctx, R, parts=("who", "clear", "behind")):
                     idx = dfl.operand_expr(ht["args"][-1])
                     if idx[0] == "proj" and idx[1][0] == "call" and idx[1][3] == pbb:
                         clear_sites.append(hbb)
+            # a clear helper that was read through (inlined): the drain locks the flag of the slot at the popped index itself
+            if d in drain_clearers:
+                locks_ = R.flag_lock_sites(d)
+                of_popped = bool(locks_) and all(any(c[3] == pbb for c in expr_calls(dfl.operand_expr(lt_["args"][0]))) for _, lt_, _ in locks_)
+                if of_popped:
+                    clear_sites += [wb for wb, v_ in _flag_writes(ctx, R, d) if v_ == "0"]
             stops = d.returns() + [x[0] for x in polls] + [pbb]
             ok = bool(ents) and bool(clear_sites) and all(must_pass_flags(d, dfl, e, stops, clear_sites) for e in ents)
             ctx.ob("R1.3", d, "dequeued-slot-flag-cleared@%s" % _site_label(d, pbb), ok, d.loc(pbb),
@@ -580,7 +599,7 @@ def r1_5(ctx, R):
             wlf = [k for k, v in fields.items() if wl_new is not None and v == wl_new.locals[0]]
             if not (smf and wlf):
                 continue
-            ops = dict(zip(e[3], e[2]))
+            ops = __import__('lib_inter').flat_ops(ctx, e)
             t_ = ops.get(smf[0])
             empty = t_ is not None and t_[0] == "call" and (t_[1] or "").startswith(sm + "::") and (t_[1] or "").endswith("::new")
             from_it = t_ is not None and t_[0] == "call" and "FromIterator" in (t_[1] or "") and (t_[1] or "").startswith("<" + sm)
